@@ -53,8 +53,8 @@ def make(shape: Dict[str, Any]) -> Any:
         # ---- schedule: queries and the withdrawal at symbolic offsets, in time order
         todo: List[Tuple[Any, str, Any]] = []
         for i, qd in enumerate(queries):
-            todo.append((ctx.int(f'query_offset{i}', 0, 2000), 'query', qd))
-        u_off = ctx.int('withdraw_offset', 0, 2000)
+            todo.append((ctx.int(f'query_offset{i}', 0, shape.get('offset_max', 2000)), 'query', qd))
+        u_off = ctx.int('withdraw_offset', 0, shape.get('offset_max', 2000))
         todo.append((u_off, 'withdraw', None))
         done_items: List[int] = []
         withdrawn_at = None
@@ -78,6 +78,11 @@ def make(shape: Dict[str, Any]) -> Any:
                 withdrawn_at = loop.now_ms
                 if action == 'close':
                     loop.create_task(zc.async_unregister_all_services())
+                elif action.startswith('unregister-recased:'):
+                    # the application withdraws the service through another ServiceInfo object spelled in another case
+                    sv = cat[action.split(':')[1]]
+                    other = Svc(sv.key, sv.type, sv.name.split('.', 1)[0].upper() + '.' + sv.name.split('.', 1)[1], sv.server, sv.port, sv.v4, sv.v6).info()
+                    loop.create_task(zc.async_unregister_service(other))
                 else:
                     loop.create_task(zc.async_unregister_service(infos[action.split(':')[1]]))
         loop.advance_by(5000)
@@ -103,6 +108,8 @@ def make(shape: Dict[str, Any]) -> Any:
             for i_, sp in table.items():
                 if sp.make(0, 1) == r:
                     return i_
+                if sp.kind == 'NSEC' and r.type == sp.type and r.name.lower() == sp.name.lower() and getattr(r, 'rdtypes', None) == sorted(sp.rd['rdtypes']):
+                    return i_  # the next-name field repeats the instance name in whatever case the withdrawing object spells it
             return None
 
         sends = env.sent_log(zc)
@@ -146,10 +153,14 @@ QUICK = {
     'ptr-query': sh(registry=['S1'], action='unregister:S1', queries=[PTRQ]),
     'multi-query': sh(registry=['S1', 'S3'], action='unregister:S1', queries=[MULTI]),
     'ptr-query-protected': sh(registry=['S1'], action='unregister:S1', queries=[PTRQ], sighted=[('S1', 'PTR')]),
+    'ptr-query-protected-shared': sh(registry=['S1', 'S2'], action='unregister:S1', queries=[PTRQ], sighted=[('S1', 'PTR')]),
     'srv-query': sh(registry=['S1'], action='unregister:S1', queries=[SRVQ]),
     'qu-query': sh(registry=['S1'], action='unregister:S1', queries=[QUQ]),
     'ptr-query-shared': sh(registry=['S1', 'S2'], action='unregister:S1', queries=[PTRQ]),
     'ptr-query-close': sh(registry=['S1'], action='close', queries=[PTRQ]),
+    'ptr-query-twice': sh(registry=['S1'], action='unregister:S1', queries=[PTRQ, PTRQ], offset_max=400),
+    'quiet-recased-object': sh(registry=['S1'], action='unregister-recased:S1'),
+    'ptr-query-recased-object': sh(registry=['S1', 'S3'], action='unregister-recased:S1', queries=[PTRQ]),
 }
 THOROUGH = {
     'address-query-shared': sh(registry=['S1', 'S2'], action='unregister:S1', queries=[AQ]),
